@@ -1,7 +1,9 @@
 package bounds
 
 import (
+	"go/constant"
 	"go/token"
+	"strings"
 	"go/types"
 
 	"bngvet/internal/flow"
@@ -370,6 +372,9 @@ func (e *Fn) reachesStrict(from, to *ssa.BasicBlock) bool {
 
 // cmpFacts converts a comparison known to be true/false into forms ≥ 0.
 func (e *Fn) cmpFacts(c ssa.Value, pol bool) []lin.Form {
+	if call, ok := c.(*ssa.Call); ok && pol {
+		return e.prefixFacts(call)
+	}
 	b, ok := c.(*ssa.BinOp)
 	if !ok {
 		return nil
@@ -436,6 +441,86 @@ func (e *Fn) triviallyNonneg(f lin.Form) bool {
 		ax = append(ax, e.axioms[a]...)
 	}
 	return lin.Prove(ax, f)
+}
+
+// prefixFacts: bytes/strings.HasPrefix(x, "const") == true  ⇒  len(x) ≥ len(const); when x is the line returned
+// by (*bufio.Reader).ReadString(delim) whose error was tested nil (the line then ends with delim) and the
+// prefix does not contain delim, the line is at least one byte longer than the prefix.
+func (e *Fn) prefixFacts(call *ssa.Call) []lin.Form {
+	f := call.Call.StaticCallee()
+	if f == nil || f.Pkg == nil || f.Name() != "HasPrefix" || len(call.Call.Args) != 2 {
+		return nil
+	}
+	if p := f.Pkg.Pkg.Path(); p != "bytes" && p != "strings" {
+		return nil
+	}
+	pre, ok := constString(call.Call.Args[1])
+	if !ok {
+		return nil
+	}
+	x := call.Call.Args[0]
+	n := int64(len(pre))
+	src := x
+	for {
+		if cv, ok := src.(*ssa.Convert); ok {
+			src = cv.X
+			continue
+		}
+		if ct, ok := src.(*ssa.ChangeType); ok {
+			src = ct.X
+			continue
+		}
+		break
+	}
+	if ex, ok := src.(*ssa.Extract); ok && ex.Index == 0 {
+		if rc, ok := ex.Tuple.(*ssa.Call); ok {
+			if g := rc.Call.StaticCallee(); g != nil && g.Pkg != nil && g.Pkg.Pkg.Path() == "bufio" && g.Name() == "ReadString" && len(rc.Call.Args) == 2 {
+				if d, ok := rc.Call.Args[1].(*ssa.Const); ok && d.Value != nil {
+					delim := byte(d.Int64())
+					if !strings.ContainsRune(pre, rune(delim)) && e.errNilAt(call.Block(), rc) {
+						n++
+					}
+				}
+			}
+		}
+	}
+	return []lin.Form{e.Len(x).AddK(-n)}
+}
+
+// errNilAt: the error result (#1) of call is known to be nil at block b.
+func (e *Fn) errNilAt(b *ssa.BasicBlock, call *ssa.Call) bool {
+	for _, ft := range flow.FactsAt(b) {
+		bo, ok := ft.Cond.(*ssa.BinOp)
+		if !ok {
+			continue
+		}
+		ex, ok := bo.X.(*ssa.Extract)
+		if !ok || ex.Tuple != ssa.Value(call) || ex.Index != 1 {
+			continue
+		}
+		if k, ok := bo.Y.(*ssa.Const); !ok || k.Value != nil {
+			continue
+		}
+		if (bo.Op == token.NEQ && !ft.Pol) || (bo.Op == token.EQL && ft.Pol) {
+			return true
+		}
+	}
+	return false
+}
+
+func constString(v ssa.Value) (string, bool) {
+	for {
+		switch x := v.(type) {
+		case *ssa.Convert:
+			v = x.X
+			continue
+		case *ssa.Const:
+			if x.Value != nil && x.Value.Kind() == constant.String {
+				return constant.StringVal(x.Value), true
+			}
+		}
+		return "", false
+	}
 }
 
 type nilLen struct {
